@@ -2,10 +2,14 @@ package main
 
 import (
 	"go/ast"
+	"go/constant"
 	"go/token"
 	"go/types"
 	"sort"
+	"strconv"
 	"strings"
+
+	"golang.org/x/tools/go/cfg"
 )
 
 func init() { register("C19", rulesC19, nil) }
@@ -176,6 +180,10 @@ func idExactnessRule(c *Ctx) {
 					continue
 				}
 				if f.Obj == decodeID && !okPI && !callsStrconv(f) && returnsInt64ID(f) {
+					if v, why := c19DecodeIntegerIDs(c, f); v == "ok" {
+						c.Ok("MakeID-caller:"+f.Name(), f, call, "integer ids are parsed by hand-written code, and evaluating it shows that every id in integer syntax within int64 is answered exactly before the float coercion is reached (%s)", why)
+						continue
+					}
 					c.Undecided("MakeID-caller:"+f.Name(), f, call, "integer ids are parsed by hand-written code instead of strconv.ParseInt: whether that parser is exact for every int64 is not something this rule can decide")
 					continue
 				}
@@ -248,8 +256,16 @@ func idExactnessRule(c *Ctx) {
 		}
 		c.Check(okForm, "DecodeID:decoded-by-the-decoder#"+itoa(i), d, r, "DecodeID returns Int64ID(parsed), MakeID(unmarshalled value) or the zero ID (got %s)", exprStr(r.Results[0]))
 	}
+	evalV, evalWhy := "", ""
 	if !okExact && !callsStrconv(d) && returnsInt64ID(d) {
-		c.Undecided("DecodeID:exact-integer-path", d, nil, "integer ids are parsed by hand-written code instead of strconv.ParseInt(raw, 10, 64): exactness over the whole int64 range is not decided here")
+		evalV, evalWhy = c19DecodeIntegerIDs(c, d)
+	}
+	if evalV == "ok" {
+		c.Ok("DecodeID:exact-integer-path", d, nil, "integer ids are parsed by hand-written code instead of strconv.ParseInt; evaluated on concrete ids it agrees with ParseInt(raw, 10, 64): %s", evalWhy)
+	} else if evalV == "bad" {
+		c.Fail("DecodeID:exact-integer-path", d, nil, "integer ids are parsed by hand-written code that is not exact over the whole int64 range: %s", evalWhy)
+	} else if !okExact && !callsStrconv(d) && returnsInt64ID(d) {
+		c.Undecided("DecodeID:exact-integer-path", d, nil, "integer ids are parsed by hand-written code instead of strconv.ParseInt(raw, 10, 64): exactness over the whole int64 range is not decided here (evaluation on concrete ids stopped at %s)", evalWhy)
 	} else {
 		c.Check(okExact, "DecodeID:exact-integer-path", d, nil, "an id in integer syntax is parsed with strconv.ParseInt(raw, 10, 64) and wrapped by Int64ID without passing through float64")
 	}
@@ -1098,8 +1114,17 @@ func rulesC19(c *Ctx) {
 			case *ast.Ident:
 				return tv[f.ObjOf(x)]
 			case *ast.SliceExpr:
+				// x[:0] of a buffer that outlives the round (a field, a captured variable, a variable declared outside the
+				// loop): the recycled scratch buffer, whose contents are valid only until it is filled again
+				if c19RecycledReslice(f, x) {
+					return true
+				}
 				return isView(f, x.X, tv)
 			case *ast.CallExpr:
+				// append onto a view (or onto a recycled buffer) writes into the same backing array while capacity lasts
+				if f.BuiltinName(x) == "append" && len(x.Args) > 0 {
+					return isView(f, x.Args[0], tv)
+				}
 				fn := f.Callee(x)
 				if fn == nil {
 					return false
@@ -1225,6 +1250,241 @@ func rulesC19(c *Ctx) {
 			}
 			return false
 		}
+		// ownedByFlag decides the design "one variable holds a view or an owned buffer, and a boolean written together with
+		// it says which": every write of the variable m the stored value derives from is a parallel assignment that also
+		// sets one and the same boolean to a constant (one value with the views, the other with the owned buffers), the
+		// boolean is written nowhere else, and — evaluating the branch conditions with the boolean at its view value —
+		// the store cannot be reached from any of the view assignments before the pair is assigned again. The locals
+		// between m and the store (trimmed, cut pieces) are recomputed on every way from an assignment of m to the store.
+		ownedByFlag := func(f *Func, w Write) string {
+			root := f.Root()
+			tv := taintedIn(f)
+			all := Writes(root.Body, true)
+			srcOf := func(x Write) ast.Expr {
+				if x.RHS != nil {
+					return x.RHS
+				}
+				if as, ok := x.Stmt.(*ast.AssignStmt); ok && len(as.Rhs) == 1 {
+					return as.Rhs[0]
+				}
+				return nil
+			}
+			strip := func(e ast.Expr) *ast.Ident {
+				for i := 0; i < 8; i++ {
+					switch x := ast.Unparen(e).(type) {
+					case *ast.Ident:
+						return x
+					case *ast.SliceExpr:
+						e = x.X
+					case *ast.CallExpr:
+						fn := f.Callee(x)
+						if fn == nil || !aliasing[fn.FullName()] || len(x.Args) == 0 {
+							return nil
+						}
+						e = x.Args[0]
+					default:
+						return nil
+					}
+				}
+				return nil
+			}
+			// the chain store ← x_k ← … ← x_1 ← m
+			var chain []types.Object
+			var m types.Object
+			var mWrites []Write
+			cur := strip(w.RHS)
+			for depth := 0; cur != nil && depth < 6; depth++ {
+				o := f.ObjOf(cur)
+				if v, isV := o.(*types.Var); !isV || v.IsField() || root.addressTaken(o) {
+					return ""
+				}
+				var ws []Write
+				for _, x := range all {
+					if _, isID := ast.Unparen(x.LHS).(*ast.Ident); !isID || f.ObjOf(x.LHS) != o {
+						continue
+					}
+					if vs, isVS := x.Stmt.(*ast.ValueSpec); isVS && len(vs.Values) == 0 {
+						continue
+					}
+					src := srcOf(x)
+					if src == nil {
+						return ""
+					}
+					if id := strip(src); id != nil && f.ObjOf(id) == o {
+						continue // a piece of itself: the same buffer as before
+					}
+					ws = append(ws, x)
+				}
+				if len(ws) == 0 {
+					return ""
+				}
+				if len(ws) == 1 {
+					chain = append(chain, o)
+					cur = strip(srcOf(ws[0]))
+					continue
+				}
+				m, mWrites = o, ws
+				break
+			}
+			if m == nil {
+				return ""
+			}
+			g := f.Graph()
+			store := g.VertexOf(w.Stmt)
+			if store < 0 {
+				return ""
+			}
+			// the flag
+			type pairW struct {
+				v    int
+				view bool
+				flag bool
+			}
+			var flagObj types.Object
+			var pairs []pairW
+			stmts := map[ast.Node]bool{}
+			first, _ := mWrites[0].Stmt.(*ast.AssignStmt)
+			if first == nil || len(first.Lhs) != len(first.Rhs) {
+				return ""
+			}
+			for j := range first.Lhs {
+				cand := f.ObjOf(first.Lhs[j])
+				if cv, isV := cand.(*types.Var); !isV || cv.IsField() || cand == m || root.addressTaken(cand) {
+					continue
+				}
+				if _, isC := f.ConstBool(first.Rhs[j]); !isC {
+					continue
+				}
+				okAll := true
+				var ps []pairW
+				st := map[ast.Node]bool{}
+				for _, x := range mWrites {
+					as, isAs := x.Stmt.(*ast.AssignStmt)
+					if !isAs || len(as.Lhs) != len(as.Rhs) {
+						okAll = false
+						break
+					}
+					fv, found := false, false
+					for k := range as.Lhs {
+						if _, isID := ast.Unparen(as.Lhs[k]).(*ast.Ident); isID && f.ObjOf(as.Lhs[k]) == cand {
+							if b, isC := f.ConstBool(as.Rhs[k]); isC {
+								fv, found = b, true
+							}
+						}
+					}
+					v := g.VertexOf(as)
+					if !found || v < 0 {
+						okAll = false
+						break
+					}
+					st[as] = true
+					ps = append(ps, pairW{v, isView(f, x.RHS, tv), fv})
+				}
+				if !okAll {
+					continue
+				}
+				// one value with every view, the other with every owned buffer
+				var viewVal, ownVal, haveV, haveO = false, false, false, false
+				for _, p := range ps {
+					if p.view {
+						if haveV && viewVal != p.flag {
+							okAll = false
+						}
+						viewVal, haveV = p.flag, true
+					} else {
+						if haveO && ownVal != p.flag {
+							okAll = false
+						}
+						ownVal, haveO = p.flag, true
+					}
+				}
+				if !okAll || !haveV || !haveO || viewVal == ownVal {
+					continue
+				}
+				// written nowhere else
+				for _, x := range all {
+					if _, isID := ast.Unparen(x.LHS).(*ast.Ident); isID && f.ObjOf(x.LHS) == cand && !st[x.Stmt] {
+						if vs, isVS := x.Stmt.(*ast.ValueSpec); isVS && len(vs.Values) == 0 {
+							continue
+						}
+						okAll = false
+					}
+				}
+				if okAll {
+					flagObj, pairs, stmts = cand, ps, st
+					break
+				}
+			}
+			if flagObj == nil {
+				return ""
+			}
+			isPair := func(v int) bool {
+				n := g.Node(v)
+				return n != nil && stmts[n]
+			}
+			var viewVal bool
+			for _, p := range pairs {
+				if p.view {
+					viewVal = p.flag
+				}
+			}
+			// the locals in between are recomputed on every way to the store
+			prev := []int{}
+			for _, p := range pairs {
+				prev = append(prev, p.v)
+			}
+			for i := len(chain) - 1; i >= 0; i-- {
+				o := chain[i]
+				isDef := func(v int) bool {
+					n := g.Node(v)
+					if n == nil {
+						return false
+					}
+					for _, x := range Writes(n, false) {
+						if _, isID := ast.Unparen(x.LHS).(*ast.Ident); isID && f.ObjOf(x.LHS) == o {
+							return true
+						}
+					}
+					return false
+				}
+				var defs []int
+				for v := 0; v < g.N; v++ {
+					if isDef(v) {
+						defs = append(defs, v)
+					}
+				}
+				if len(defs) == 0 {
+					return "" // defined in another function
+				}
+				for _, from := range prev {
+					if from == store {
+						continue
+					}
+					if ok, _ := g.MustPass(from, []int{store}, isDef); !ok {
+						return ""
+					}
+				}
+				prev = defs
+			}
+			leaf := func(e ast.Expr) tri {
+				if id, isID := ast.Unparen(e).(*ast.Ident); isID && f.ObjOf(id) == flagObj {
+					if viewVal {
+						return triTrue
+					}
+					return triFalse
+				}
+				return triUnknown
+			}
+			for _, p := range pairs {
+				if !p.view {
+					continue
+				}
+				if c19ReachUnderFrom(g, g.succ[p.v], leaf, isPair)[store] {
+					return ""
+				}
+			}
+			return "every assignment of " + m.Name() + " sets " + flagObj.Name() + " alongside (" + map[bool]string{true: "true", false: "false"}[viewVal] + " with a view of the reader's buffer), and with that value the store is not reached"
+		}
 		nSrc, nSink := 0, 0
 		for _, f := range fns {
 			tv := taintedIn(f)
@@ -1245,7 +1505,14 @@ func rulesC19(c *Ctx) {
 				if sel, isSel := lhs.(*ast.SelectorExpr); isSel {
 					if fv, isF := f.ObjOf(sel.Sel).(*types.Var); isF && fv.IsField() {
 						nSink++
+						if c19RecycleHomes(f)[fv] {
+							continue // the scratch buffer put back where it is recycled from
+						}
 						if isView(f, w.RHS, tv) && fromMixed(f, w.RHS, 0) {
+							if why := ownedByFlag(f, w); why != "" {
+								c.Ok("borrowed-buffer:stored:"+f.Name()+":"+fv.Name(), f, w.Stmt, "%s receives %s only when it is an owned buffer: %s", exprStr(w.LHS), exprStr(w.RHS), why)
+								continue
+							}
 							c.Undecided("borrowed-buffer:stored:"+f.Name()+":"+fv.Name(), f, w.Stmt, "%s receives %s, which comes from a function that returns a view of the reader's buffer on some paths and an owned buffer on others: whether this store only sees the owned ones is a flag-dependent fact this rule does not track", exprStr(w.LHS), exprStr(w.RHS))
 							continue
 						}
@@ -1718,4 +1985,1004 @@ func callsStrconv(f *Func) bool {
 		}
 	}
 	return false
+}
+
+// c19RecycledReslice: x is `b[:0]` of a buffer b that outlives the round in which the expression is evaluated — a field, a
+// package-level or captured variable, or a variable declared outside the innermost loop around the expression: the idiom
+// of the recycled scratch buffer (what is built on it is overwritten the next time round).
+func c19RecycledReslice(f *Func, x *ast.SliceExpr) bool {
+	if x.Low != nil || x.High == nil || x.Slice3 {
+		return false
+	}
+	if z, ok := f.ConstInt(x.High); !ok || z != 0 {
+		return false
+	}
+	return c19Persistent(f, x.X, x) != nil
+}
+
+// c19Persistent returns the object of e if it names storage that outlives the innermost loop / function literal around at.
+func c19Persistent(f *Func, e ast.Expr, at ast.Node) types.Object {
+	root := f.Root()
+	switch b := ast.Unparen(e).(type) {
+	case *ast.SelectorExpr:
+		if fv, ok := f.ObjOf(b.Sel).(*types.Var); ok && fv.IsField() {
+			return fv
+		}
+	case *ast.Ident:
+		v, ok := f.ObjOf(b).(*types.Var)
+		if !ok || v.Pkg() == nil {
+			return nil
+		}
+		if v.Parent() == v.Pkg().Scope() {
+			return v
+		}
+		outside := func(n ast.Node) bool { return n != nil && (v.Pos() < n.Pos() || v.Pos() >= n.End()) }
+		lit := root.Enclosing(at, func(n ast.Node) bool { _, ok := n.(*ast.FuncLit); return ok })
+		loop := root.Enclosing(at, func(n ast.Node) bool {
+			switch n.(type) {
+			case *ast.ForStmt, *ast.RangeStmt:
+				return true
+			}
+			return false
+		})
+		if outside(lit) || outside(loop) {
+			return v
+		}
+	}
+	return nil
+}
+
+// c19RecycleHomes: the buffers that are recycled with b[:0] somewhere in the declared function around f.
+func c19RecycleHomes(f *Func) map[types.Object]bool {
+	out := map[types.Object]bool{}
+	root := f.Root()
+	ast.Inspect(root.Body, func(n ast.Node) bool {
+		if x, ok := n.(*ast.SliceExpr); ok && c19RecycledReslice(f, x) {
+			if o := c19Persistent(f, x.X, x); o != nil {
+				out[o] = true
+			}
+		}
+		return true
+	})
+	return out
+}
+
+// c19ReachUnderFrom is Graph.ReachUnder with given start vertices: the vertices reachable from starts when the branch
+// conditions are evaluated in three-valued logic under leaf0 (definitely false/true outcomes are pruned), not entering
+// blocked vertices.
+func c19ReachUnderFrom(g *Graph, starts []int, leaf0 func(ast.Expr) tri, blocked func(int) bool) []bool {
+	pruned := map[[2]int]bool{}
+	for i, b := range g.C.Blocks {
+		if !b.Live || len(b.Succs) != 2 || len(b.Nodes) == 0 {
+			continue
+		}
+		cond, ok := b.Nodes[len(b.Nodes)-1].(ast.Expr)
+		if !ok {
+			continue
+		}
+		ev := g.off[i] + len(b.Nodes)
+		var val tri
+		switch b.Succs[0].Kind {
+		case cfg.KindIfThen, cfg.KindForBody:
+			val = evalTri(cond, leaf0)
+		case cfg.KindSwitchCaseBody:
+			cc, _ := b.Succs[0].Stmt.(*ast.CaseClause)
+			var sw *ast.SwitchStmt
+			if cc != nil {
+				if blk, ok := g.F.ParentOf(cc).(*ast.BlockStmt); ok {
+					sw, _ = g.F.ParentOf(blk).(*ast.SwitchStmt)
+				}
+			}
+			if sw == nil {
+				continue
+			}
+			if sw.Tag != nil {
+				val = leaf0(&ast.BinaryExpr{X: sw.Tag, Op: token.EQL, Y: cond})
+			} else {
+				val = evalTri(cond, leaf0)
+			}
+		default:
+			continue
+		}
+		switch val {
+		case triTrue:
+			pruned[[2]int{ev, 1}] = true
+		case triFalse:
+			pruned[[2]int{ev, 0}] = true
+		}
+	}
+	var st []int
+	for _, s := range starts {
+		if blocked == nil || !blocked(s) {
+			st = append(st, s)
+		}
+	}
+	seen, _ := g.reach(st, blocked, func(u, k int) bool { return pruned[[2]int{u, k}] })
+	return seen
+}
+
+// ---- evaluation of a hand-written integer parser on concrete inputs ------------------------------------------------
+//
+// c19Eval runs a function of the module on concrete arguments over its syntax tree: integers with Go's wrap-around
+// arithmetic, booleans, byte slices and strings; if/for/range/switch, labelled break/continue, calls of module functions
+// with a body. Anything else (an opaque call, an unsupported construct, too many steps) stops the run with the reason, so
+// a result is only ever reported for a run that was carried out completely.
+
+type c19Val struct {
+	k  int // 0 unknown, 1 integer, 2 bool, 3 bytes, 4 string, 5 nil/other, 6 Int64ID(i), 7 non-nil error
+	i  uint64
+	b  bool
+	bs []byte
+	s  string
+}
+
+type c19Ctl struct {
+	kind  int // 0 none, 1 break, 2 continue, 3 return, 4 stop
+	label string
+	rets  []c19Val
+	why   string // stop: "call:<name>" or "unsupported:<what>"
+}
+
+type c19Eval struct {
+	c     *Ctx
+	env   map[types.Object]c19Val
+	steps int
+	depth int
+}
+
+func c19IntKind(t types.Type) (bits int, signed, ok bool) {
+	b, isB := t.Underlying().(*types.Basic)
+	if !isB {
+		return 0, false, false
+	}
+	switch b.Kind() {
+	case types.Int, types.Int64, types.UntypedInt, types.UntypedRune:
+		return 64, true, true
+	case types.Int32:
+		return 32, true, true
+	case types.Int16:
+		return 16, true, true
+	case types.Int8:
+		return 8, true, true
+	case types.Uint, types.Uint64, types.Uintptr:
+		return 64, false, true
+	case types.Uint32:
+		return 32, false, true
+	case types.Uint16:
+		return 16, false, true
+	case types.Uint8:
+		return 8, false, true
+	}
+	return 0, false, false
+}
+
+func c19Norm(v uint64, bits int, signed bool) uint64 {
+	if bits >= 64 {
+		return v
+	}
+	v &= 1<<uint(bits) - 1
+	if signed && v&(1<<uint(bits-1)) != 0 {
+		v |= ^uint64(0) << uint(bits)
+	}
+	return v
+}
+
+func c19IsByteSlice(t types.Type) bool {
+	sl, ok := t.Underlying().(*types.Slice)
+	if !ok {
+		return false
+	}
+	b, isB := sl.Elem().Underlying().(*types.Basic)
+	return isB && b.Kind() == types.Uint8
+}
+
+func c19Zero(t types.Type) c19Val {
+	if _, _, ok := c19IntKind(t); ok {
+		return c19Val{k: 1}
+	}
+	if b, ok := t.Underlying().(*types.Basic); ok {
+		if b.Info()&types.IsBoolean != 0 {
+			return c19Val{k: 2}
+		}
+		if b.Info()&types.IsString != 0 {
+			return c19Val{k: 4}
+		}
+	}
+	if c19IsByteSlice(t) {
+		return c19Val{k: 3}
+	}
+	return c19Val{k: 5}
+}
+
+func c19Stop(why string) c19Ctl { return c19Ctl{kind: 4, why: why} }
+
+func (ev *c19Eval) expr(f *Func, e ast.Expr) (c19Val, *c19Ctl) {
+	stop := func(why string) (c19Val, *c19Ctl) { s := c19Stop(why); return c19Val{}, &s }
+	ev.steps++
+	if ev.steps > 200000 {
+		return stop("unsupported:too many steps")
+	}
+	e = ast.Unparen(e)
+	if tv, ok := f.Info().Types[e]; ok && tv.Value != nil {
+		switch tv.Value.Kind() {
+		case constant.Bool:
+			return c19Val{k: 2, b: constant.BoolVal(tv.Value)}, nil
+		case constant.String:
+			return c19Val{k: 4, s: constant.StringVal(tv.Value)}, nil
+		case constant.Int:
+			if u, exact := constant.Uint64Val(tv.Value); exact {
+				return c19Val{k: 1, i: u}, nil
+			}
+			if i, exact := constant.Int64Val(tv.Value); exact {
+				return c19Val{k: 1, i: uint64(i)}, nil
+			}
+		}
+		return stop("unsupported:constant")
+	}
+	switch x := e.(type) {
+	case *ast.Ident:
+		if x.Name == "nil" {
+			return c19Val{k: 5}, nil
+		}
+		if v, ok := ev.env[f.ObjOf(x)]; ok && v.k != 0 {
+			return v, nil
+		}
+		return stop("unsupported:variable " + x.Name)
+	case *ast.CompositeLit:
+		return c19Val{k: 5}, nil
+	case *ast.UnaryExpr:
+		v, ctl := ev.expr(f, x.X)
+		if ctl != nil {
+			return v, ctl
+		}
+		bits, signed, isInt := c19IntKind(f.TypeOf(e))
+		switch {
+		case x.Op == token.NOT && v.k == 2:
+			return c19Val{k: 2, b: !v.b}, nil
+		case x.Op == token.SUB && v.k == 1 && isInt:
+			return c19Val{k: 1, i: c19Norm(-v.i, bits, signed)}, nil
+		case x.Op == token.ADD && v.k == 1:
+			return v, nil
+		case x.Op == token.XOR && v.k == 1 && isInt:
+			return c19Val{k: 1, i: c19Norm(^v.i, bits, signed)}, nil
+		}
+		return stop("unsupported:unary " + x.Op.String())
+	case *ast.BinaryExpr:
+		l, ctl := ev.expr(f, x.X)
+		if ctl != nil {
+			return l, ctl
+		}
+		if x.Op == token.LAND || x.Op == token.LOR {
+			if l.k != 2 {
+				return stop("unsupported:logical operand")
+			}
+			if (x.Op == token.LAND && !l.b) || (x.Op == token.LOR && l.b) {
+				return l, nil
+			}
+			return ev.expr(f, x.Y)
+		}
+		r, ctl := ev.expr(f, x.Y)
+		if ctl != nil {
+			return r, ctl
+		}
+		if (l.k == 5 || l.k == 7) && (r.k == 5 || r.k == 7) && (x.Op == token.EQL || x.Op == token.NEQ) {
+			if l.k == 7 && r.k == 7 {
+				return stop("unsupported:comparison of two errors")
+			}
+			return c19Val{k: 2, b: (l.k == r.k) == (x.Op == token.EQL)}, nil
+		}
+		if l.k == 2 && r.k == 2 && (x.Op == token.EQL || x.Op == token.NEQ) {
+			return c19Val{k: 2, b: (l.b == r.b) == (x.Op == token.EQL)}, nil
+		}
+		if l.k == 4 && r.k == 4 {
+			switch x.Op {
+			case token.EQL:
+				return c19Val{k: 2, b: l.s == r.s}, nil
+			case token.NEQ:
+				return c19Val{k: 2, b: l.s != r.s}, nil
+			case token.ADD:
+				return c19Val{k: 4, s: l.s + r.s}, nil
+			}
+		}
+		if l.k != 1 || r.k != 1 {
+			return stop("unsupported:operands of " + x.Op.String())
+		}
+		_, osigned, ok := c19IntKind(f.TypeOf(x.X))
+		if !ok {
+			return stop("unsupported:operand type")
+		}
+		cmp := func(lt, eq bool) (c19Val, *c19Ctl) {
+			var res bool
+			switch x.Op {
+			case token.EQL:
+				res = eq
+			case token.NEQ:
+				res = !eq
+			case token.LSS:
+				res = lt
+			case token.LEQ:
+				res = lt || eq
+			case token.GTR:
+				res = !lt && !eq
+			case token.GEQ:
+				res = !lt
+			}
+			return c19Val{k: 2, b: res}, nil
+		}
+		switch x.Op {
+		case token.EQL, token.NEQ, token.LSS, token.LEQ, token.GTR, token.GEQ:
+			if osigned {
+				return cmp(int64(l.i) < int64(r.i), l.i == r.i)
+			}
+			return cmp(l.i < r.i, l.i == r.i)
+		}
+		bits, signed, ok := c19IntKind(f.TypeOf(e))
+		if !ok {
+			return stop("unsupported:result type")
+		}
+		var res uint64
+		switch x.Op {
+		case token.ADD:
+			res = l.i + r.i
+		case token.SUB:
+			res = l.i - r.i
+		case token.MUL:
+			res = l.i * r.i
+		case token.QUO, token.REM:
+			if r.i == 0 {
+				return stop("panic:division by zero")
+			}
+			if signed {
+				if x.Op == token.QUO {
+					res = uint64(int64(l.i) / int64(r.i))
+				} else {
+					res = uint64(int64(l.i) % int64(r.i))
+				}
+			} else if x.Op == token.QUO {
+				res = l.i / r.i
+			} else {
+				res = l.i % r.i
+			}
+		case token.AND:
+			res = l.i & r.i
+		case token.OR:
+			res = l.i | r.i
+		case token.XOR:
+			res = l.i ^ r.i
+		case token.AND_NOT:
+			res = l.i &^ r.i
+		case token.SHL:
+			if r.i >= 64 {
+				res = 0
+			} else {
+				res = l.i << r.i
+			}
+		case token.SHR:
+			sh := r.i
+			if sh > 63 {
+				sh = 63
+				if !signed {
+					return c19Val{k: 1}, nil
+				}
+			}
+			if signed {
+				res = uint64(int64(l.i) >> sh)
+			} else {
+				res = l.i >> sh
+			}
+		default:
+			return stop("unsupported:operator " + x.Op.String())
+		}
+		return c19Val{k: 1, i: c19Norm(res, bits, signed)}, nil
+	case *ast.IndexExpr:
+		b, ctl := ev.expr(f, x.X)
+		if ctl != nil {
+			return b, ctl
+		}
+		ix, ctl := ev.expr(f, x.Index)
+		if ctl != nil {
+			return ix, ctl
+		}
+		if ix.k != 1 {
+			return stop("unsupported:index")
+		}
+		switch b.k {
+		case 3:
+			if int64(ix.i) < 0 || int64(ix.i) >= int64(len(b.bs)) {
+				return stop("panic:index out of range")
+			}
+			return c19Val{k: 1, i: uint64(b.bs[ix.i])}, nil
+		case 4:
+			if int64(ix.i) < 0 || int64(ix.i) >= int64(len(b.s)) {
+				return stop("panic:index out of range")
+			}
+			return c19Val{k: 1, i: uint64(b.s[ix.i])}, nil
+		}
+		return stop("unsupported:indexed value")
+	case *ast.SliceExpr:
+		b, ctl := ev.expr(f, x.X)
+		if ctl != nil {
+			return b, ctl
+		}
+		n := len(b.bs)
+		if b.k == 4 {
+			n = len(b.s)
+		} else if b.k != 3 {
+			return stop("unsupported:sliced value")
+		}
+		lo, hi := 0, n
+		if x.Slice3 {
+			return stop("unsupported:3-index slice")
+		}
+		if x.Low != nil {
+			v, ctl := ev.expr(f, x.Low)
+			if ctl != nil || v.k != 1 {
+				return stop("unsupported:slice bound")
+			}
+			lo = int(int64(v.i))
+		}
+		if x.High != nil {
+			v, ctl := ev.expr(f, x.High)
+			if ctl != nil || v.k != 1 {
+				return stop("unsupported:slice bound")
+			}
+			hi = int(int64(v.i))
+		}
+		if lo < 0 || hi > n || lo > hi {
+			return stop("panic:slice bounds out of range")
+		}
+		if b.k == 4 {
+			return c19Val{k: 4, s: b.s[lo:hi]}, nil
+		}
+		return c19Val{k: 3, bs: b.bs[lo:hi]}, nil
+	case *ast.CallExpr:
+		vs, ctl := ev.call(f, x)
+		if ctl != nil {
+			return c19Val{}, ctl
+		}
+		if len(vs) != 1 {
+			return stop("unsupported:multi-value call in expression")
+		}
+		return vs[0], nil
+	}
+	return stop("unsupported:expression")
+}
+
+func (ev *c19Eval) call(f *Func, x *ast.CallExpr) ([]c19Val, *c19Ctl) {
+	stop := func(why string) ([]c19Val, *c19Ctl) { s := c19Stop(why); return nil, &s }
+	if tv, ok := f.Info().Types[x.Fun]; ok && tv.IsType() && len(x.Args) == 1 {
+		v, ctl := ev.expr(f, x.Args[0])
+		if ctl != nil {
+			return nil, ctl
+		}
+		if bits, signed, isInt := c19IntKind(tv.Type); isInt && v.k == 1 {
+			return []c19Val{{k: 1, i: c19Norm(v.i, bits, signed)}}, nil
+		}
+		if b, isB := tv.Type.Underlying().(*types.Basic); isB && b.Info()&types.IsString != 0 {
+			switch v.k {
+			case 3:
+				return []c19Val{{k: 4, s: string(v.bs)}}, nil
+			case 4:
+				return []c19Val{v}, nil
+			}
+		}
+		if c19IsByteSlice(tv.Type) {
+			switch v.k {
+			case 3:
+				return []c19Val{v}, nil
+			case 4:
+				return []c19Val{{k: 3, bs: []byte(v.s)}}, nil
+			case 5:
+				return []c19Val{{k: 3}}, nil
+			}
+		}
+		return stop("unsupported:conversion")
+	}
+	if f.BuiltinName(x) == "len" && len(x.Args) == 1 {
+		v, ctl := ev.expr(f, x.Args[0])
+		if ctl != nil {
+			return nil, ctl
+		}
+		switch v.k {
+		case 3:
+			return []c19Val{{k: 1, i: uint64(len(v.bs))}}, nil
+		case 4:
+			return []c19Val{{k: 1, i: uint64(len(v.s))}}, nil
+		}
+		return stop("unsupported:len")
+	}
+	fn := f.Callee(x)
+	if fn == nil {
+		return stop("call:?")
+	}
+	if fn.Name() == "Int64ID" && len(x.Args) == 1 {
+		v, ctl := ev.expr(f, x.Args[0])
+		if ctl != nil {
+			return nil, ctl
+		}
+		if v.k != 1 {
+			return stop("unsupported:Int64ID argument")
+		}
+		return []c19Val{{k: 6, i: v.i}}, nil
+	}
+	if fn.Pkg() != nil && fn.Pkg().Path() == "strconv" && (fn.Name() == "ParseInt" || fn.Name() == "ParseUint") && len(x.Args) == 3 {
+		var a [3]c19Val
+		for i := range a {
+			v, ctl := ev.expr(f, x.Args[i])
+			if ctl != nil {
+				return nil, ctl
+			}
+			a[i] = v
+		}
+		if a[0].k != 4 || a[1].k != 1 || a[2].k != 1 {
+			return stop("unsupported:strconv arguments")
+		}
+		var res uint64
+		var err error
+		if fn.Name() == "ParseInt" {
+			var i int64
+			i, err = strconv.ParseInt(a[0].s, int(a[1].i), int(a[2].i))
+			res = uint64(i)
+		} else {
+			res, err = strconv.ParseUint(a[0].s, int(a[1].i), int(a[2].i))
+		}
+		e := c19Val{k: 5}
+		if err != nil {
+			e = c19Val{k: 7}
+		}
+		return []c19Val{{k: 1, i: res}, e}, nil
+	}
+	g := ev.c.P.FuncOf(fn)
+	if g == nil || g.Body == nil || g.Decl == nil || g.Decl.Recv != nil || ev.depth >= 3 || x.Ellipsis.IsValid() {
+		return stop("call:" + fn.Name())
+	}
+	ps := g.NonRecvParams()
+	if len(ps) != len(x.Args) {
+		return stop("call:" + fn.Name())
+	}
+	var args []c19Val
+	for _, a := range x.Args {
+		v, ctl := ev.expr(f, a)
+		if ctl != nil {
+			if strings.HasPrefix(ctl.why, "unsupported:") {
+				return stop("call:" + fn.Name()) // a call this evaluation cannot carry out: opaque
+			}
+			return nil, ctl
+		}
+		args = append(args, v)
+	}
+	for i, p := range ps {
+		ev.env[p] = args[i]
+	}
+	var named []types.Object
+	if g.Decl.Type.Results != nil {
+		for _, fld := range g.Decl.Type.Results.List {
+			for _, nm := range fld.Names {
+				if o := g.Info().Defs[nm]; o != nil {
+					ev.env[o] = c19Zero(o.Type())
+					named = append(named, o)
+				}
+			}
+		}
+	}
+	ev.depth++
+	ctl := ev.block(g, g.Body.List)
+	ev.depth--
+	switch ctl.kind {
+	case 3:
+		if ctl.rets == nil && len(named) > 0 {
+			var out []c19Val
+			for _, o := range named {
+				out = append(out, ev.env[o])
+			}
+			return out, nil
+		}
+		return ctl.rets, nil
+	case 4:
+		if strings.HasPrefix(ctl.why, "unsupported:") {
+			return stop("call:" + fn.Name())
+		}
+		return nil, &ctl
+	case 0:
+		return nil, nil
+	}
+	return stop("unsupported:control flow out of " + fn.Name())
+}
+
+func (ev *c19Eval) block(f *Func, list []ast.Stmt) c19Ctl {
+	for _, s := range list {
+		if ctl := ev.stmt(f, s, ""); ctl.kind != 0 {
+			return ctl
+		}
+	}
+	return c19Ctl{}
+}
+
+func (ev *c19Eval) assign(f *Func, lhs ast.Expr, v c19Val) *c19Ctl {
+	id, ok := ast.Unparen(lhs).(*ast.Ident)
+	if !ok {
+		s := c19Stop("unsupported:assignment target")
+		return &s
+	}
+	if id.Name == "_" {
+		return nil
+	}
+	o := f.ObjOf(id)
+	if o == nil {
+		s := c19Stop("unsupported:assignment target")
+		return &s
+	}
+	ev.env[o] = v
+	return nil
+}
+
+func (ev *c19Eval) stmt(f *Func, s ast.Stmt, label string) c19Ctl {
+	ev.steps++
+	if ev.steps > 200000 {
+		return c19Stop("unsupported:too many steps")
+	}
+	// a loop / switch consumes the break (and a loop the continue) addressed to it
+	mine := func(ctl c19Ctl, kind int) bool {
+		return ctl.kind == kind && (ctl.label == "" || ctl.label == label)
+	}
+	switch x := s.(type) {
+	case nil:
+		return c19Ctl{}
+	case *ast.EmptyStmt:
+		return c19Ctl{}
+	case *ast.BlockStmt:
+		return ev.block(f, x.List)
+	case *ast.LabeledStmt:
+		ctl := ev.stmt(f, x.Stmt, x.Label.Name)
+		if ctl.kind == 1 && ctl.label == x.Label.Name {
+			return c19Ctl{}
+		}
+		return ctl
+	case *ast.DeclStmt:
+		gd, ok := x.Decl.(*ast.GenDecl)
+		if !ok || gd.Tok == token.CONST || gd.Tok == token.TYPE {
+			return c19Ctl{}
+		}
+		for _, sp := range gd.Specs {
+			vs, ok := sp.(*ast.ValueSpec)
+			if !ok {
+				continue
+			}
+			for i, nm := range vs.Names {
+				o := f.Info().Defs[nm]
+				if o == nil {
+					continue
+				}
+				switch {
+				case len(vs.Values) == 0:
+					ev.env[o] = c19Zero(o.Type())
+				case len(vs.Values) == len(vs.Names):
+					v, ctl := ev.expr(f, vs.Values[i])
+					if ctl != nil {
+						return *ctl
+					}
+					ev.env[o] = v
+				default:
+					return c19Stop("unsupported:var from tuple")
+				}
+			}
+		}
+		return c19Ctl{}
+	case *ast.ExprStmt:
+		if call, ok := ast.Unparen(x.X).(*ast.CallExpr); ok {
+			if _, ctl := ev.call(f, call); ctl != nil {
+				return *ctl
+			}
+			return c19Ctl{}
+		}
+		return c19Stop("unsupported:expression statement")
+	case *ast.IncDecStmt:
+		v, ctl := ev.expr(f, x.X)
+		if ctl != nil {
+			return *ctl
+		}
+		bits, signed, ok := c19IntKind(f.TypeOf(x.X))
+		if v.k != 1 || !ok {
+			return c19Stop("unsupported:inc/dec")
+		}
+		if x.Tok == token.INC {
+			v.i++
+		} else {
+			v.i--
+		}
+		v.i = c19Norm(v.i, bits, signed)
+		if c := ev.assign(f, x.X, v); c != nil {
+			return *c
+		}
+		return c19Ctl{}
+	case *ast.AssignStmt:
+		if x.Tok != token.ASSIGN && x.Tok != token.DEFINE {
+			// op-assignment: a op= b
+			if len(x.Lhs) != 1 || len(x.Rhs) != 1 {
+				return c19Stop("unsupported:assignment")
+			}
+			op := map[token.Token]token.Token{token.ADD_ASSIGN: token.ADD, token.SUB_ASSIGN: token.SUB, token.MUL_ASSIGN: token.MUL, token.QUO_ASSIGN: token.QUO, token.REM_ASSIGN: token.REM, token.AND_ASSIGN: token.AND, token.OR_ASSIGN: token.OR, token.XOR_ASSIGN: token.XOR, token.SHL_ASSIGN: token.SHL, token.SHR_ASSIGN: token.SHR}[x.Tok]
+			if op == token.ILLEGAL {
+				return c19Stop("unsupported:assignment operator")
+			}
+			be := &ast.BinaryExpr{X: x.Lhs[0], Op: op, Y: x.Rhs[0]}
+			// the type of the synthetic expression is the type of the target
+			f.Info().Types[be] = types.TypeAndValue{Type: f.TypeOf(x.Lhs[0])}
+			v, ctl := ev.expr(f, be)
+			delete(f.Info().Types, be)
+			if ctl != nil {
+				return *ctl
+			}
+			if c := ev.assign(f, x.Lhs[0], v); c != nil {
+				return *c
+			}
+			return c19Ctl{}
+		}
+		var vals []c19Val
+		if len(x.Rhs) == 1 && len(x.Lhs) > 1 {
+			call, ok := ast.Unparen(x.Rhs[0]).(*ast.CallExpr)
+			if !ok {
+				return c19Stop("unsupported:tuple assignment")
+			}
+			vs, ctl := ev.call(f, call)
+			if ctl != nil {
+				return *ctl
+			}
+			vals = vs
+		} else {
+			for _, r := range x.Rhs {
+				v, ctl := ev.expr(f, r)
+				if ctl != nil {
+					return *ctl
+				}
+				vals = append(vals, v)
+			}
+		}
+		if len(vals) != len(x.Lhs) {
+			return c19Stop("unsupported:assignment arity")
+		}
+		for i, l := range x.Lhs {
+			if c := ev.assign(f, l, vals[i]); c != nil {
+				return *c
+			}
+		}
+		return c19Ctl{}
+	case *ast.IfStmt:
+		if ctl := ev.stmt(f, x.Init, ""); ctl.kind != 0 {
+			return ctl
+		}
+		v, ctl := ev.expr(f, x.Cond)
+		if ctl != nil {
+			return *ctl
+		}
+		if v.k != 2 {
+			return c19Stop("unsupported:condition")
+		}
+		if v.b {
+			return ev.block(f, x.Body.List)
+		}
+		if x.Else != nil {
+			return ev.stmt(f, x.Else, "")
+		}
+		return c19Ctl{}
+	case *ast.ForStmt:
+		if ctl := ev.stmt(f, x.Init, ""); ctl.kind != 0 {
+			return ctl
+		}
+		for {
+			if x.Cond != nil {
+				v, ctl := ev.expr(f, x.Cond)
+				if ctl != nil {
+					return *ctl
+				}
+				if v.k != 2 {
+					return c19Stop("unsupported:condition")
+				}
+				if !v.b {
+					return c19Ctl{}
+				}
+			}
+			ctl := ev.block(f, x.Body.List)
+			if mine(ctl, 1) {
+				return c19Ctl{}
+			}
+			if ctl.kind != 0 && !mine(ctl, 2) {
+				return ctl
+			}
+			if ctl := ev.stmt(f, x.Post, ""); ctl.kind != 0 {
+				return ctl
+			}
+			if ev.steps > 200000 {
+				return c19Stop("unsupported:too many steps")
+			}
+		}
+	case *ast.RangeStmt:
+		v, ctl := ev.expr(f, x.X)
+		if ctl != nil {
+			return *ctl
+		}
+		if v.k != 3 {
+			return c19Stop("unsupported:range operand")
+		}
+		for i, b := range v.bs {
+			if x.Key != nil {
+				if c := ev.assign(f, x.Key, c19Val{k: 1, i: uint64(i)}); c != nil {
+					return *c
+				}
+			}
+			if x.Value != nil {
+				if c := ev.assign(f, x.Value, c19Val{k: 1, i: uint64(b)}); c != nil {
+					return *c
+				}
+			}
+			ctl := ev.block(f, x.Body.List)
+			if mine(ctl, 1) {
+				return c19Ctl{}
+			}
+			if ctl.kind != 0 && !mine(ctl, 2) {
+				return ctl
+			}
+		}
+		return c19Ctl{}
+	case *ast.SwitchStmt:
+		if ctl := ev.stmt(f, x.Init, ""); ctl.kind != 0 {
+			return ctl
+		}
+		var tag *c19Val
+		if x.Tag != nil {
+			v, ctl := ev.expr(f, x.Tag)
+			if ctl != nil {
+				return *ctl
+			}
+			tag = &v
+		}
+		var chosen, def *ast.CaseClause
+	clauses:
+		for _, cs := range x.Body.List {
+			cc := cs.(*ast.CaseClause)
+			if cc.List == nil {
+				def = cc
+				continue
+			}
+			for _, ce := range cc.List {
+				v, ctl := ev.expr(f, ce)
+				if ctl != nil {
+					return *ctl
+				}
+				hit := false
+				switch {
+				case tag == nil && v.k == 2:
+					hit = v.b
+				case tag != nil && tag.k == 1 && v.k == 1:
+					hit = tag.i == v.i
+				case tag != nil && tag.k == 4 && v.k == 4:
+					hit = tag.s == v.s
+				case tag != nil && tag.k == 2 && v.k == 2:
+					hit = tag.b == v.b
+				default:
+					return c19Stop("unsupported:case")
+				}
+				if hit {
+					chosen = cc
+					break clauses
+				}
+			}
+		}
+		if chosen == nil {
+			chosen = def
+		}
+		if chosen == nil {
+			return c19Ctl{}
+		}
+		for _, st := range chosen.Body {
+			if br, ok := st.(*ast.BranchStmt); ok && br.Tok == token.FALLTHROUGH {
+				return c19Stop("unsupported:fallthrough")
+			}
+		}
+		ctl := ev.block(f, chosen.Body)
+		if mine(ctl, 1) {
+			return c19Ctl{}
+		}
+		return ctl
+	case *ast.BranchStmt:
+		lb := ""
+		if x.Label != nil {
+			lb = x.Label.Name
+		}
+		switch x.Tok {
+		case token.BREAK:
+			return c19Ctl{kind: 1, label: lb}
+		case token.CONTINUE:
+			return c19Ctl{kind: 2, label: lb}
+		}
+		return c19Stop("unsupported:" + x.Tok.String())
+	case *ast.ReturnStmt:
+		out := c19Ctl{kind: 3}
+		if len(x.Results) == 1 {
+			if call, ok := ast.Unparen(x.Results[0]).(*ast.CallExpr); ok {
+				if tv, isT := f.Info().Types[call]; isT {
+					if _, isTuple := tv.Type.(*types.Tuple); isTuple {
+						vs, ctl := ev.call(f, call)
+						if ctl != nil {
+							return *ctl
+						}
+						out.rets = vs
+						return out
+					}
+				}
+			}
+		}
+		for _, r := range x.Results {
+			v, ctl := ev.expr(f, r)
+			if ctl != nil {
+				return *ctl
+			}
+			out.rets = append(out.rets, v)
+		}
+		return out
+	}
+	return c19Stop("unsupported:statement")
+}
+
+// c19DecodeIntegerIDs runs d (the decoder of a raw id, one parameter of byte-slice type) on ids in integer syntax around
+// the limits of int64 and of float64's exact range. verdict "ok": every run was carried out to its end and every id
+// that is an int64 came back as Int64ID of exactly that value, no other input came back as an Int64ID from the
+// hand-written path; "bad": some completed run gave another answer (detail names it); "": not decided.
+func c19DecodeIntegerIDs(c *Ctx, d *Func) (verdict, detail string) {
+	ps := d.NonRecvParams()
+	if len(ps) != 1 || !c19IsByteSlice(ps[0].Type()) || d.Body == nil {
+		return "", ""
+	}
+	inputs := []string{"0", "7", "-1", "10", "9007199254740992", "9007199254740993", "-9007199254740993", "1000000000000000000", "-1000000000000000000",
+		"922337203685477580", "922337203685477581", "4611686018427387904", "9223372036854775799", "-9223372036854775799",
+		"9223372036854775808", "-9223372036854775809", "9223372036854775810", "18446744073709551615", "18446744073709551616", "18446744073709551617", "92233720368547758070", "-92233720368547758080", "100000000000000000000",
+		"12a", "1.0", "1e3", "-", "\"7\"", "\"a\"", "null", "7 "}
+	for k := 0; k <= 7; k++ {
+		inputs = append(inputs, "922337203685477580"+itoa(k), "-922337203685477580"+itoa(k))
+	}
+	inputs = append(inputs, "-9223372036854775808")
+	// the general path of d is the float coercion (MakeID of the value the JSON decoder produced)
+	coerces := false
+	for _, call := range d.AllCalls(d.Body, true) {
+		if fn := d.Callee(call); fn != nil && fn.Name() == "MakeID" {
+			coerces = true
+		}
+	}
+	undecided := ""
+	for _, in := range inputs {
+		want, err := strconv.ParseInt(in, 10, 64)
+		isInt := err == nil
+		ev := &c19Eval{c: c, env: map[types.Object]c19Val{ps[0]: {k: 3, bs: []byte(in)}}}
+		ctl := ev.block(d, d.Body.List)
+		switch {
+		case ctl.kind == 3 && len(ctl.rets) >= 1 && ctl.rets[0].k == 6:
+			got := int64(ctl.rets[0].i)
+			if !isInt {
+				return "bad", "the id " + in + ", which is not an integer in the range of int64, is decoded as the integer id " + strconv.FormatInt(got, 10)
+			}
+			if got != want {
+				return "bad", "the integer id " + in + " is decoded as " + strconv.FormatInt(got, 10)
+			}
+		case ctl.kind == 3:
+			// some other answer (the zero ID, an error): not an id at all
+			if isInt {
+				return "bad", "the integer id " + in + " is not decoded as an integer id"
+			}
+		case ctl.kind == 4 && strings.HasPrefix(ctl.why, "panic:"):
+			return "bad", "decoding the id " + in + " panics (" + strings.TrimPrefix(ctl.why, "panic:") + ")"
+		case ctl.kind == 4 && (ctl.why == "call:Unmarshal" || ctl.why == "call:MakeID") && coerces:
+			// handed to the general decoder, which goes through float64: exact only within ±2^53
+			if isInt && (want > 1<<53 || want < -(1<<53)) {
+				return "bad", "the integer id " + in + " is refused by the integer path and falls through to the float64 coercion of the general decoder, which cannot represent it (it comes back as another id)"
+			}
+		default:
+			if undecided == "" {
+				undecided = in + ": " + ctl.why
+			}
+		}
+	}
+	if undecided != "" {
+		return "", undecided
+	}
+	return "ok", itoa(len(inputs)) + " ids around ±2^53, ±2^63 and 2^64 evaluated"
 }
